@@ -186,6 +186,12 @@ class SimClock:
             self.now = self.now + _dt.timedelta(seconds=step)
         return t
 
+    def __reduce__(self):
+        # dill serialises module globals of functions it pickles by value; the
+        # real `datetime` module travels by reference, and so must the clock
+        # (otherwise loading a pickled model would re-install a stale copy)
+        return _current_clock, ()
+
     def jump(self, seconds):
         self.now = self.now + _dt.timedelta(seconds=seconds)
 
@@ -194,6 +200,8 @@ class SimClock:
 
     def install(self):
         import formulas.functions.date as fd
+        global _CLOCK
+        _CLOCK = self
         if not hasattr(fd, '_dst_real_datetime'):
             fd._dst_real_datetime = fd.datetime
         fd.datetime = self
@@ -206,6 +214,13 @@ class SimClock:
         import formulas.functions.date as fd
         if hasattr(fd, '_dst_real_datetime'):
             fd.datetime = fd._dst_real_datetime
+
+
+_CLOCK = None
+
+
+def _current_clock():
+    return _CLOCK
 
 
 def excel_serial(t, with_time=True):
